@@ -320,8 +320,8 @@ impl Property for C08 {
     }
     fn budget(&self, tier: Tier) -> u64 {
         match tier {
-            Tier::Quick => 300_000,
-            Tier::Thorough => 4_000_000,
+            Tier::Quick => 1_500_000,
+            Tier::Thorough => 15_000_000,
         }
     }
     fn generate(&self, seed: u64, run: u64, tier: Tier, _avoid: &BTreeSet<String>) -> MacCase {
